@@ -505,6 +505,9 @@ var s2programs = []string{
 	"{zz_c20_b: 1, zz_c20_e: 2}.keys",
 	// a call wider than any earlier call of the process (arity-indexed interpreter state, argument variables \9, \10 ...)
 	"{|a, b, c, d, e, f, g, h, i, j, k, l| [\\1, \\9, \\10, \\12, \\0.len]}(1, 2, 3, 4, 5, 6, 7, 8, 9, 10, 11, 12)",
+	// standard modules loaded for the first time; shared built-in prototypes compared, listed and printed
+	"[import(\"dummy_native\").keys, import(\"dummy\").keys]",
+	"[Int == Int, Kernel == Obj, [Comparable, Kernel, Iterable, JSON, Diamond, Num, Nil, Err, ValueErr, Obj, Range, Map]@{|pr| pr == pr}, Int.keys.len, Arr.S.len, Obj.items.len]",
 	// strings handed out by the interpreter-wide symbol table used as values: compared, hashed as map keys, printed
 	"k := \"zz_c20_a := 1; zz_c20_c := 2\".evalEnv.keys; [k[0] == \"zz_c20_a\", %{k[1]: 1}[k[1]], k[0] + k[1], k.S]",
 }
